@@ -132,6 +132,10 @@ class Ctx(object):
         if self.violations:
             print("%s: %d violation(s) in %.1fs" % (self.prop, len(self.violations), wall))
             return 1
+        if self.notes.get("vacuous_keywords"):
+            # a run that passes keywords which cannot matter proves less than it claims: machinery failure
+            print("MACHINERY FAILURE: vacuous keyword settings: %s" % "; ".join(self.notes["vacuous_keywords"]))
+            return 2
         print("%s: ok  states=%d traces=%d evaluations=%d distinct_paths=%d wall=%.1fs" % (
             self.prop, self.states, self.traces, self.evaluations, len(self.nontrivial), wall))
         return 0
